@@ -38,6 +38,11 @@ CasesOf(f, m) ==
   \cup { b @@ [op |-> o] : o \in {"getdata", "getmaskarray", "neg", "mul2"} }
   \cup { [b EXCEPT !.p = 7] @@ [op |-> "filled"], [b EXCEPT !.fv = 8] @@ [op |-> "filled"],
          [b EXCEPT !.maskform = "da", !.fv = 8] @@ [op |-> "filled"] }
+  \* re-wrapping the already masked array: a new fill_value (with and without one on the inner array, every
+  \* spelling of the inner mask), or a further mask
+  \cup { [b EXCEPT !.maskform = mf, !.fv = fv, !.p = 7] @@ [op |-> o]
+         : o \in {"rewrap", "refill"}, fv \in {0, 8}, mf \in {"np", "da"} \cup (IF m = Zeros(n) THEN {"nomask"} ELSE {}) }
+  \cup { b @@ [op |-> "remask", mask2 |-> m2] : m2 \in {Rev(m), [j \in 1..n |-> f.cond[j]]} }
   \cup { b @@ [op |-> o, data2 |-> f.data2, mask2 |-> s.m, form2 |-> s.f]
          : o \in {"add", "sub", "mul", "floordiv", "lt"},
            s \in { [m |-> Zeros(n), f |-> "plain"], [m |-> Zeros(n), f |-> "masked"], [m |-> Rev(m), f |-> "masked"] } }
@@ -77,7 +82,8 @@ Canonical == (done /\ ~exp.err) => \A j \in DOMAIN exp.cells :
                  /\ exp.cells[j][2] = 1 => exp.cells[j][1] = (IF exp.rat THEN RNaN ELSE 0)
                  /\ exp.plain => exp.cells[j][2] = 0
 \* masks only grow: every result of an elementwise or masking operation is masked wherever the input was
-MaskMonotone == (done /\ case.op \in MaskOps \cup {"neg", "mul2", "add", "sub", "mul", "floordiv", "lt", "cumsum", "cumprod", "id"}) =>
+MaskMonotone == (done /\ case.op \in MaskOps \cup {"neg", "mul2", "add", "sub", "mul", "floordiv", "lt", "cumsum", "cumprod", "id",
+                                              "rewrap", "remask"}) =>
                    \A j \in DOMAIN case.mask : case.mask[j] = 1 => exp.cells[j][2] = 1
 \* count + number of masked cells = size, along any axes
 CountComplement == (done /\ case.op = "count" /\ ~exp.err) => SumSeq(DataOf(exp.cells)) = Size(case.shape) - NMasked
@@ -87,6 +93,10 @@ SumOfUnmasked == (done /\ case.op = "sum" /\ ~exp.err) =>
 AllMaskedLane == (done /\ case.op \in {"sum", "prod", "min", "max", "mean", "any", "all"} /\ case.ax = <<None>> /\ ~exp.err) =>
                     (exp.cells[1][2] = 1) = (NMasked = Size(case.shape))
 \* filled then compared with the data: differs only under the mask
+\* re-wrapping keeps the mask; filling the re-wrapped array uses the NEW fill value, whatever the old one was
+RewrapKeepsMask == (done /\ case.op = "rewrap") => MaskOf(exp.cells) = case.mask
+RefillUsesNew == (done /\ case.op = "refill") =>
+                    \A j \in DOMAIN case.data : exp.cells[j][1] = (IF case.mask[j] = 1 THEN case.p ELSE case.data[j])
 FilledAgrees == (done /\ case.op = "filled") =>
                    \A j \in DOMAIN case.data : exp.cells[j][1] = (IF case.mask[j] = 1 THEN (IF case.p # 0 THEN case.p ELSE case.fv) ELSE case.data[j])
 \* with no masked cell every operation agrees with the unmasked reference semantics of module Reductions
